@@ -34,6 +34,10 @@ type faultReader struct {
 	calls     int
 	toggle    bool
 	errored   bool // the reader has handed an error to its caller
+	stallAt   int  // after this many delivered bytes: twenty (0, nil) reads in a row, once (<0: never)
+	stalled   int
+	transient bool // the error is handed over once; later reads deliver again
+	recovered bool
 }
 
 // zeroThen yields 32 zero bytes (a legal, if unlucky, draw) and then the bytes of r.
@@ -69,10 +73,20 @@ func (f *faultReader) Read(p []byte) (int, error) {
 	if f.chunk > 0 && n > f.chunk {
 		n = f.chunk
 	}
-	if f.failAfter >= 0 {
+	if f.stallAt >= 0 {
+		if len(f.delivered) == f.stallAt && f.stalled < 20 {
+			f.stalled++
+			return 0, nil
+		}
+		if len(f.delivered) < f.stallAt && len(f.delivered)+n > f.stallAt {
+			n = f.stallAt - len(f.delivered)
+		}
+	}
+	if f.failAfter >= 0 && !f.recovered {
 		left := f.failAfter - len(f.delivered)
 		if left <= 0 {
 			f.errored = true
+			f.recovered = f.transient
 			return 0, f.err
 		}
 		if n >= left {
@@ -80,6 +94,7 @@ func (f *faultReader) Read(p []byte) (int, error) {
 			f.src.Read(p[:n])
 			f.delivered = append(f.delivered, p[:n]...)
 			if f.withLast {
+				f.recovered = f.transient
 				// an error handed over with the bytes that complete a 32-byte draw is dropped by
 				// io.ReadFull, legitimately; anywhere else the caller has to report it
 				if len(f.delivered)%32 != 0 {
@@ -99,7 +114,7 @@ var c20Ops = []string{"Builder.Build(WithRNG)", "New(rng)", "Append(built parent
 	"Builder.Build(WithRNG), source starts with 32 zero bytes", "New(rng), source starts with 32 zero bytes", "Append(built parent), source starts with 32 zero bytes",
 	"Builder.Build(WithRNG) again on the same builder after the failure"}
 var c20Errs = []error{io.EOF, io.ErrUnexpectedEOF, errEntropy}
-var c20Deliveries = []string{"one-read", "byte-per-read", "zero-length-reads-interleaved"}
+var c20Deliveries = []string{"one-read", "byte-per-read", "zero-length-reads-interleaved", "twenty-zero-length-reads-in-a-row-mid-draw", "error-handed-over-once-then-the-source-works-again"}
 
 func c20Total() int { return len(c20Ops) * (32*len(c20Errs)*2*len(c20Deliveries) + len(c20Deliveries)) }
 
@@ -192,7 +207,7 @@ func c20Run(c *core.C) {
 	perOp := 32*len(c20Errs)*2*len(c20Deliveries) + len(c20Deliveries)
 	op := c.Idx / perOp
 	rest := c.Idx % perOp
-	fr := &faultReader{src: lib.NewDetRand(c.Seed, fmt.Sprintf("c20-%d", c.Idx)), failAfter: -1}
+	fr := &faultReader{src: lib.NewDetRand(c.Seed, fmt.Sprintf("c20-%d", c.Idx)), failAfter: -1, stallAt: -1}
 	zeros := op >= 6 && op <= 8
 	retry := op == 9
 	replay := op == 4 || op == 5 || zeros // the fault lies beyond the first 32 bytes
@@ -231,6 +246,18 @@ func c20Run(c *core.C) {
 	case 2:
 		fr.zeroReads = true
 		fr.chunk = 3
+	case 3:
+		// a source that stalls (reads that return nothing, without an error) in the middle of a draw and then goes on
+		fr.stallAt = 5
+		if fr.failAfter >= 2 {
+			fr.stallAt = fr.failAfter / 2
+		}
+		if replay {
+			fr.stallAt += 32
+		}
+	case 4:
+		fr.transient = true
+		fr.chunk = 7
 	}
 	if fr.failAfter == 0 && fr.withLast {
 		// "error together with the last bytes" with zero bytes is the plain error case
